@@ -74,6 +74,7 @@ type Unit struct {
 	allocSyms map[Term]bool
 	spawnUnits []*Unit
 	loopGuards []loopGuard
+	replay     *replayTpl
 }
 
 // loopGuard: while the body of a loop whose heap frame was assumed in quantified form is executed, every write to
@@ -205,6 +206,9 @@ func (u *Unit) oblige(st *State, kind, label string, goal Term, pos token.Pos) {
 		pc = append(append([]Term{}, st.pc...), st.decPC...)
 	}
 	o := &Obligation{Name: name, Kind: kind, Func: root.name, Goal: g, PC: pc, Where: u.where(pos), Trace: st.trace, Expect: "unsat", Inputs: root.inputs}
+	if g == "false" {
+		o.Short = true // holds only if the path is dead: one attempt decides that or nothing does
+	}
 	root.obls = append(root.obls, o)
 }
 
